@@ -5,9 +5,288 @@ import CassisModel.Proofs.RoundTripDefs
 import CassisModel.Proofs.Xmi
 import CassisModel.Proofs.XmiLoad2
 import CassisModel.Proofs.Reach
+import CassisModel.Proofs.RoundTripElem
 
 namespace Cassis.Xmi
 open Cassis.TS Cassis.Traverse Cassis.Lex
+
+/-! ### positions and new addresses -/
+
+/-- position of the id `x` in the collected structures -/
+def posOf (x : Int) : List (Int × Nat) → Nat
+  | [] => 0
+  | q :: L => if q.1 = x then 0 else posOf x L + 1
+
+/-- the entries the first pass appends to the id table, the first new object sitting at address `n` -/
+def addrsFrom : Nat → List (Int × Nat) → List (Int × Nat)
+  | _, [] => []
+  | n, q :: L => (q.1, n) :: addrsFrom (n + 1) L
+
+theorem addrsFrom_eq : ∀ (L : List (Int × Nat)) (n : Nat), (L.map (·.1)).Nodup →
+    addrsFrom n L = L.map (fun q => (q.1, n + posOf q.1 L))
+  | [], _, _ => rfl
+  | q :: L, n, hn => by
+    rw [List.map_cons, List.nodup_cons] at hn
+    rw [addrsFrom, addrsFrom_eq L (n + 1) hn.2, List.map_cons]
+    congr 1
+    · simp [posOf]
+    · apply List.map_congr_left
+      intro q' hq'
+      have hne : q.1 ≠ q'.1 := by
+        intro h; apply hn.1; rw [h]; exact List.mem_map_of_mem hq'
+      simp only [posOf, hne, if_false]
+      congr 1
+      omega
+
+theorem addrsFrom_keys : ∀ (L : List (Int × Nat)) (n : Nat), (addrsFrom n L).map (·.1) = L.map (·.1)
+  | [], _ => rfl
+  | q :: L, n => by rw [addrsFrom, List.map_cons, List.map_cons, addrsFrom_keys L (n + 1)]
+
+theorem posOf_inj : ∀ (L : List (Int × Nat)) (x y : Int), x ∈ L.map (·.1) → y ∈ L.map (·.1) →
+    posOf x L = posOf y L → x = y
+  | [], _, _, hx, _, _ => by cases hx
+  | q :: L, x, y, hx, hy, h => by
+    unfold posOf at h
+    by_cases h1 : q.1 = x <;> by_cases h2 : q.1 = y
+    · rw [← h1, ← h2]
+    · rw [if_pos h1, if_neg h2] at h; omega
+    · rw [if_neg h1, if_pos h2] at h; omega
+    · rw [if_neg h1, if_neg h2] at h
+      rw [List.map_cons, List.mem_cons] at hx hy
+      have hx' : x ∈ L.map (·.1) := by
+        rcases hx with hx | hx
+        · exact absurd hx.symm h1
+        · exact hx
+      have hy' : y ∈ L.map (·.1) := by
+        rcases hy with hy | hy
+        · exact absurd hy.symm h2
+        · exact hy
+      exact posOf_inj L x y hx' hy' (by omega)
+
+/-! ### the structure elements -/
+
+/-- what is known about one collected structure `q`, its element `e` and the object `o1` the reader builds -/
+def ElemOk (K : Consts) (ts : TypeSystem) (cass : List Cas) (H : Heap) (tsIdx : Nat) (q : Int × Nat) (e : XElem)
+    (o1 : Obj) : Prop :=
+  e.ty ≠ SOFA ∧ e.ty ≠ VIEW_T ∧
+  (∀ hpCur, parseFsElem K ts tsIdx hpCur e = .ok (hpCur ++ [o1], q.1, hpCur.length)) ∧
+  ∃ o, H[q.2]? = some o ∧ ObjRel (E1 ts cass H o) o o1 q.1
+
+def Trip (P : Int × Nat → XElem → Obj → Prop) : List (Int × Nat) → List XElem → List Obj → Prop
+  | [], [], [] => True
+  | q :: L, e :: es, o :: objs => P q e o ∧ Trip P L es objs
+  | _, _, _ => False
+
+theorem Trip.length {P : Int × Nat → XElem → Obj → Prop} : ∀ {L : List (Int × Nat)} {es : List XElem} {objs : List Obj},
+    Trip P L es objs → objs.length = L.length
+  | [], [], [], _ => rfl
+  | _ :: L, _ :: es, _ :: objs, h => by
+    rw [List.length_cons, List.length_cons, Trip.length (L := L) (es := es) (objs := objs) h.2]
+  | [], [], _ :: _, h => by cases h
+  | [], _ :: _, _, h => by cases h
+  | _ :: _, [], _, h => by cases h
+  | _ :: _, _ :: _, [], h => by cases h
+
+theorem Trip.get {P : Int × Nat → XElem → Obj → Prop} : ∀ {L : List (Int × Nat)} {es : List XElem} {objs : List Obj},
+    Trip P L es objs → (L.map (·.1)).Nodup → ∀ q ∈ L, ∃ e o1, objs[posOf q.1 L]? = some o1 ∧ P q e o1
+  | [], [], [], _, _, q, hq => by cases hq
+  | q0 :: L, e :: es, o :: objs, h, hn, q, hq => by
+    rw [List.map_cons, List.nodup_cons] at hn
+    rcases List.mem_cons.mp hq with rfl | hq'
+    · refine ⟨e, o, ?_, h.1⟩
+      simp [posOf]
+    · have hne : q0.1 ≠ q.1 := by
+        intro h'; apply hn.1; rw [h']; exact List.mem_map_of_mem hq'
+      obtain ⟨e', o1, h1, h2⟩ := Trip.get (L := L) (es := es) (objs := objs) h.2 hn.2 q hq'
+      refine ⟨e', o1, ?_, h2⟩
+      simp only [posOf, hne, if_false, List.getElem?_cons_succ]
+      exact h1
+  | [], [], _ :: _, h, _, _, _ => by cases h
+  | [], _ :: _, _, h, _, _, _ => by cases h
+  | _ :: _, [], _, h, _, _, _ => by cases h
+  | _ :: _, _ :: _, [], h, _, _, _ => by cases h
+
+theorem renderAll_trip (K : Consts) (ts : TypeSystem) (cass : List Cas) (c : Cas) (ci : Nat) (H : Heap) (tsIdx : Nat)
+    (hc : cass[ci]? = some c) :
+    ∀ (L : List (Int × Nat)), (∀ q ∈ L, FlatFs K ts c ci H q.2) → (∀ q ∈ L, xidOf H q.2 = some q.1) →
+    ∃ (es : List XElem) (objs : List Obj), renderAll K ts cass H L = .ok es ∧ Trip (ElemOk K ts cass H tsIdx) L es objs
+  | [], _, _ => ⟨[], [], rfl, trivial⟩
+  | q :: L, hf, hx => by
+    obtain ⟨o, o1, e, ho, hr, h1, h2, h3, h4⟩ :=
+      flat_elem K ts cass c ci H tsIdx q.2 q.1 hc (hf q List.mem_cons_self) (hx q List.mem_cons_self)
+    obtain ⟨es, objs, hes, ht⟩ := renderAll_trip K ts cass c ci H tsIdx hc L
+      (fun q' hq' => hf q' (List.mem_cons_of_mem _ hq')) (fun q' hq' => hx q' (List.mem_cons_of_mem _ hq'))
+    refine ⟨e :: es, o1 :: objs, ?_, ⟨h1, h2, h3, o, ho, h4⟩, ht⟩
+    rw [renderAll, hr, hes]
+    rfl
+
+/-! ### the first pass over the three parts of the document -/
+
+theorem step1_fs (K : Consts) (ts : TypeSystem) (tsIdx : Nat) (e : XElem) (s : Pass1) (o1 : Obj) (x : Int)
+    (h1 : e.ty ≠ SOFA) (h2 : e.ty ≠ VIEW_T)
+    (hp : parseFsElem K ts tsIdx s.heap e = .ok (s.heap ++ [o1], x, s.heap.length))
+    (hx : x ∉ s.fss.map (·.1)) :
+    step1 K ts tsIdx false e s =
+      .ok { s with heap := s.heap ++ [o1], fss := s.fss ++ [(x, s.heap.length)], maxId := max s.maxId x } := by
+  unfold step1
+  rw [if_neg (by simpa using h1), if_neg (by simpa using h2), hp]
+  dsimp only
+  rw [alistSetI_of_not_mem _ _ _ hx]
+
+theorem pass1_fs (K : Consts) (ts : TypeSystem) (cass : List Cas) (H : Heap) (tsIdx : Nat) (rest : XDoc) :
+    ∀ (L : List (Int × Nat)) (es : List XElem) (objs : List Obj) (s : Pass1),
+      Trip (ElemOk K ts cass H tsIdx) L es objs → (L.map (·.1)).Nodup → (∀ q ∈ L, q.1 ∉ s.fss.map (·.1)) →
+      ∃ m, pass1 K ts tsIdx false (es ++ rest) s =
+        pass1 K ts tsIdx false rest
+          { s with heap := s.heap ++ objs, fss := s.fss ++ addrsFrom s.heap.length L, maxId := m }
+  | [], [], [], s, _, _, _ => ⟨s.maxId, by simp [addrsFrom]⟩
+  | q :: L, e :: es, o1 :: objs, s, h, hn, hk => by
+    rw [List.map_cons, List.nodup_cons] at hn
+    obtain ⟨⟨h1, h2, h3, _⟩, ht⟩ := h
+    have hstep := step1_fs K ts tsIdx e s o1 q.1 h1 h2 (h3 s.heap) (hk q List.mem_cons_self)
+    obtain ⟨m, hm⟩ := pass1_fs K ts cass H tsIdx rest L es objs
+      { s with heap := s.heap ++ [o1], fss := s.fss ++ [(q.1, s.heap.length)], maxId := max s.maxId q.1 } ht hn.2
+      (by
+        intro q' hq'
+        dsimp only
+        rw [List.map_append, List.mem_append, not_or]
+        refine ⟨hk q' (List.mem_cons_of_mem _ hq'), ?_⟩
+        simp only [List.map_cons, List.map_nil, List.mem_singleton]
+        intro h'
+        apply hn.1
+        rw [← h']
+        exact List.mem_map_of_mem hq')
+    refine ⟨m, ?_⟩
+    rw [List.cons_append, pass1_cons, hstep]
+    show pass1 K ts tsIdx false (es ++ rest) _ = _
+    rw [hm]
+    congr 1
+    simp only [List.append_assoc, List.singleton_append, List.length_append, List.length_singleton, addrsFrom]
+  | [], [], _ :: _, _, h, _, _ => by cases h
+  | [], _ :: _, _, _, h, _, _ => by cases h
+  | _ :: _, [], _, _, h, _, _ => by cases h
+  | _ :: _, _ :: _, [], _, h, _, _ => by cases h
+
+theorem step1_sofa (K : Consts) (ts : TypeSystem) (tsIdx : Nat) (nv : String × View) (s : Pass1)
+    (hx : nv.2.sofa.xid ∉ s.sofas.map (·.1)) :
+    ∃ m m', step1 K ts tsIdx false (renderSofa nv.2.sofa) s =
+      .ok { s with sofas := s.sofas ++ [(nv.2.sofa.xid, psofaOf nv)], maxId := m, maxNum := m' } := by
+  refine ⟨max s.maxId nv.2.sofa.xid, max s.maxNum nv.2.sofa.sofaNum, ?_⟩
+  unfold step1
+  rw [if_pos (by rfl), sofa_roundtrip_aux]
+  dsimp only
+  rw [alistSetI_of_not_mem _ _ _ hx]
+  rfl
+
+theorem pass1_sofa_list (K : Consts) (ts : TypeSystem) (tsIdx : Nat) (rest : XDoc) :
+    ∀ (vs : List (String × View)) (s : Pass1), (vs.map (·.2.sofa.xid)).Nodup →
+      (∀ nv ∈ vs, nv.2.sofa.xid ∉ s.sofas.map (·.1)) →
+      ∃ m m', pass1 K ts tsIdx false (vs.map (fun p => renderSofa p.2.sofa) ++ rest) s =
+        pass1 K ts tsIdx false rest
+          { s with sofas := s.sofas ++ vs.map (fun nv => (nv.2.sofa.xid, psofaOf nv)), maxId := m, maxNum := m' }
+  | [], s, _, _ => ⟨s.maxId, s.maxNum, by simp⟩
+  | nv :: vs, s, hn, hk => by
+    rw [List.map_cons, List.nodup_cons] at hn
+    obtain ⟨m0, m0', hstep⟩ := step1_sofa K ts tsIdx nv s (hk nv List.mem_cons_self)
+    obtain ⟨m, m', hm⟩ := pass1_sofa_list K ts tsIdx rest vs
+      { s with sofas := s.sofas ++ [(nv.2.sofa.xid, psofaOf nv)], maxId := m0, maxNum := m0' } hn.2
+      (by
+        intro q' hq'
+        dsimp only
+        rw [List.map_append, List.mem_append, not_or]
+        refine ⟨hk q' (List.mem_cons_of_mem _ hq'), ?_⟩
+        simp only [List.map_cons, List.map_nil, List.mem_singleton]
+        intro h'
+        apply hn.1
+        rw [← h']
+        exact List.mem_map_of_mem (f := fun p : String × View => p.2.sofa.xid) hq')
+    refine ⟨m, m', ?_⟩
+    rw [List.map_cons, List.cons_append, pass1_cons, hstep]
+    show pass1 K ts tsIdx false (_ ++ rest) _ = _
+    rw [hm]
+    congr 1
+    simp only [List.append_assoc, List.singleton_append, List.map_cons]
+
+theorem step1_view (K : Consts) (ts : TypeSystem) (tsIdx : Nat) (H : Heap) (nv : String × View) (s : Pass1)
+    (hx : nv.2.sofa.xid ∉ s.views.map (·.1)) :
+    step1 K ts tsIdx false (renderView H nv.2) s =
+      .ok { s with views := s.views ++ [(nv.2.sofa.xid, pviewOf H nv)] } := by
+  unfold step1
+  rw [if_neg (show ¬ ((renderView H nv.2).ty == SOFA) = true by show ¬ (VIEW_T == SOFA) = true; decide),
+    if_pos (by rfl), view_roundtrip_aux]
+  dsimp only
+  rw [alistSetI_of_not_mem _ _ _ hx]
+  rfl
+
+theorem pass1_view_list (K : Consts) (ts : TypeSystem) (tsIdx : Nat) (H : Heap) (rest : XDoc) :
+    ∀ (vs : List (String × View)) (s : Pass1), (vs.map (·.2.sofa.xid)).Nodup →
+      (∀ nv ∈ vs, nv.2.sofa.xid ∉ s.views.map (·.1)) →
+      pass1 K ts tsIdx false (vs.map (fun p => renderView H p.2) ++ rest) s =
+        pass1 K ts tsIdx false rest
+          { s with views := s.views ++ vs.map (fun nv => (nv.2.sofa.xid, pviewOf H nv)) }
+  | [], s, _, _ => by simp
+  | nv :: vs, s, hn, hk => by
+    rw [List.map_cons, List.nodup_cons] at hn
+    have hstep := step1_view K ts tsIdx H nv s (hk nv List.mem_cons_self)
+    have hm := pass1_view_list K ts tsIdx H rest vs
+      { s with views := s.views ++ [(nv.2.sofa.xid, pviewOf H nv)] } hn.2
+      (by
+        intro q' hq'
+        dsimp only
+        rw [List.map_append, List.mem_append, not_or]
+        refine ⟨hk q' (List.mem_cons_of_mem _ hq'), ?_⟩
+        simp only [List.map_cons, List.map_nil, List.mem_singleton]
+        intro h'
+        apply hn.1
+        rw [← h']
+        exact List.mem_map_of_mem (f := fun p : String × View => p.2.sofa.xid) hq')
+    rw [List.map_cons, List.cons_append, pass1_cons, hstep]
+    show pass1 K ts tsIdx false (_ ++ rest) _ = _
+    rw [hm]
+    congr 1
+    simp only [List.append_assoc, List.singleton_append, List.map_cons]
+
+/-! ### the `cas:NULL` element -/
+
+theorem null_elem (K : Consts) (ts : TypeSystem) (tsIdx : Nat) (hnull : NullOk ts) :
+    ∃ o0 : Obj, o0.ty = NULL_T ∧ o0.xid = some 0 ∧ o0.slots = [] ∧
+      ∀ hpCur, parseFsElem K ts tsIdx hpCur { ty := NULL_T, attrs := [(ID, "0")] } = .ok (hpCur ++ [o0], 0, hpCur.length) := by
+  obtain ⟨t0, hf, ha⟩ := hnull
+  have hgt : getType ts NULL_T = .ok t0 := by unfold getType; rw [hf]
+  have hname : t0.name = NULL_T := by
+    have := List.find?_some hf
+    simpa using this
+  refine ⟨objOf t0 tsIdx 0 [], hname, rfl, ?_, ?_⟩
+  · unfold objOf ctorFields
+    rw [ha]
+    rfl
+  · intro hpCur
+    apply parseFsElem_flat K ts tsIdx hpCur _ t0 0 [] hgt rfl (by decide)
+    · intro p hp; cases hp
+    · intro s hs; cases hs
+
+/-! ### the whole document -/
+
+theorem saveXmi_doc (K : Consts) (ts : TypeSystem) (cass : List Cas) (ci : Nat) (c : Cas) (hp : Heap) (doc : XDoc)
+    (st : St) (hc : cass[ci]? = some c) (h : saveXmi K ts cass ci hp = .ok (doc, st)) :
+    ∃ fsElems : List XElem, renderAll K ts cass st.heap (sortById st.allFs) = .ok fsElems ∧
+      doc = [{ ty := NULL_T, attrs := [(ID, "0")] }] ++ fsElems ++ c.views.map (fun p => renderSofa p.2.sofa) ++
+            c.views.map (fun p => renderView st.heap p.2) := by
+  unfold saveXmi at h
+  rw [hc] at h
+  simp only [bind, Except.bind, pure, Except.pure] at h
+  cases hst : Traverse.findAllFs K ts {} hp c.nextXid (Traverse.defaultSeeds c) with
+  | error err => rw [hst] at h; cases h
+  | ok st' =>
+    rw [hst] at h
+    simp only at h
+    cases hr : renderAll K ts cass st'.heap (sortById st'.allFs) with
+    | error err => rw [hr] at h; cases h
+    | ok fsElems =>
+      rw [hr] at h
+      simp only at h
+      cases h
+      exact ⟨fsElems, hr, rfl⟩
 
 theorem pass1_flat (K : Consts) (ts : TypeSystem) (cass : List Cas) (ci : Nat) (c : Cas) (hp : Heap) (tsIdx : Nat)
     (doc : XDoc) (st : St) (hc : cass[ci]? = some c) (hwf : RTWf c hp)
@@ -15,6 +294,65 @@ theorem pass1_flat (K : Consts) (ts : TypeSystem) (cass : List Cas) (ci : Nat) (
     (hL : LOk K ts c ci st.heap (sortById st.allFs)) :
     ∃ (na : Int → Nat) (p : Pass1), pass1 K ts tsIdx false doc { heap := st.heap } = .ok p ∧
       NaOk st.heap.length (sortById st.allFs) na ∧ P1Spec ts cass c st.heap (sortById st.allFs) na p := by
-  sorry
+  obtain ⟨fsElems, hr, hdoc⟩ := saveXmi_doc K ts cass ci c hp doc st hc hsave
+  generalize hLd : sortById st.allFs = L at hL hr ⊢
+  generalize hHd : st.heap = H at hL hr hdoc ⊢
+  obtain ⟨es, objs, hes, htrip⟩ := renderAll_trip K ts cass c ci H tsIdx hc L hL.flat (fun q hq => (hL.ids q hq).1)
+  rw [hr] at hes
+  cases hes
+  obtain ⟨o0, h0ty, h0x, h0s, h0p⟩ := null_elem K ts tsIdx hnull
+  -- the run
+  have hstep0 := step1_fs K ts tsIdx { ty := NULL_T, attrs := [(ID, "0")] } { heap := H } o0 0
+    (by decide) (by decide) (h0p H) (by intro h; cases h)
+  obtain ⟨m1, hrun1⟩ := pass1_fs K ts cass H tsIdx
+    (c.views.map (fun p => renderSofa p.2.sofa) ++ (c.views.map (fun p => renderView H p.2) ++ [])) L fsElems objs
+    { heap := H ++ [o0], fss := [] ++ [((0 : Int), H.length)], maxId := max 0 0 } htrip hL.nodup
+    (by
+      intro q hq
+      simp only [List.nil_append, List.map_cons, List.map_nil, List.mem_singleton]
+      exact (hL.ids q hq).2)
+  obtain ⟨m2, m2', hrun2⟩ := pass1_sofa_list K ts tsIdx (c.views.map (fun p => renderView H p.2) ++ []) c.views
+    { heap := (H ++ [o0]) ++ objs, fss := ([] ++ [((0 : Int), H.length)]) ++ addrsFrom (H ++ [o0]).length L, maxId := m1 }
+    hwf.sofa_ids_nodup (by intro nv _ h; cases h)
+  have hrun3 := pass1_view_list K ts tsIdx H [] c.views
+    { heap := (H ++ [o0]) ++ objs, fss := ([] ++ [((0 : Int), H.length)]) ++ addrsFrom (H ++ [o0]).length L,
+      sofas := [] ++ c.views.map (fun nv => (nv.2.sofa.xid, psofaOf nv)), maxId := m2, maxNum := m2' }
+    hwf.sofa_ids_nodup (by intro nv _ h; cases h)
+  refine ⟨fun x => H.length + 1 + posOf x L,
+    { heap := (H ++ [o0]) ++ objs, fss := ([] ++ [((0 : Int), H.length)]) ++ addrsFrom (H ++ [o0]).length L,
+      sofas := [] ++ c.views.map (fun nv => (nv.2.sofa.xid, psofaOf nv)),
+      views := [] ++ c.views.map (fun nv => (nv.2.sofa.xid, pviewOf H nv)), maxId := m2, maxNum := m2' }, ?_, ?_, ?_⟩
+  · rw [hdoc, List.append_assoc, List.append_assoc, List.singleton_append, pass1_cons, hstep0]
+    show pass1 K ts tsIdx false _ _ = _
+    rw [← List.append_nil (c.views.map (fun p => renderView H p.2))]
+    exact hrun1.trans (hrun2.trans (hrun3.trans (pass1_nil K ts tsIdx false _)))
+  · refine ⟨?_, ?_⟩
+    · intro q hq q' hq' h
+      exact posOf_inj L q.1 q'.1 (List.mem_map_of_mem hq) (List.mem_map_of_mem hq') (by omega)
+    · intro q _
+      show H.length < H.length + 1 + posOf q.1 L
+      omega
+  · refine ⟨?_, ?_, ?_, rfl, ?_, ?_, ?_⟩
+    · show ([] ++ [((0 : Int), H.length)]) ++ addrsFrom (H ++ [o0]).length L = _
+      rw [addrsFrom_eq L _ hL.nodup, List.length_append, List.length_singleton]
+      rfl
+    · show [] ++ c.views.map (fun nv => (nv.2.sofa.xid, psofaOf nv)) = _
+      rfl
+    · show [] ++ c.views.map (fun nv => (nv.2.sofa.xid, pviewOf H nv)) = _
+      rfl
+    · show ((H ++ [o0]) ++ objs).length = _
+      rw [List.length_append, List.length_append, List.length_singleton, htrip.length]
+    · refine ⟨o0, ?_, h0ty, h0x, h0s⟩
+      show ((H ++ [o0]) ++ objs)[H.length]? = some o0
+      rw [List.append_assoc, List.getElem?_append_right (Nat.le_refl _), Nat.sub_self]
+      rfl
+    · intro q hq
+      obtain ⟨e, o1, hget, _, _, _, o, ho, hrel⟩ := htrip.get hL.nodup q hq
+      refine ⟨o, o1, ho, ?_, hrel⟩
+      show ((H ++ [o0]) ++ objs)[H.length + 1 + posOf q.1 L]? = some o1
+      rw [List.getElem?_append_right (by rw [List.length_append, List.length_singleton]; omega),
+        List.length_append, List.length_singleton]
+      rw [show H.length + 1 + posOf q.1 L - (H.length + 1) = posOf q.1 L by omega]
+      exact hget
 
 end Cassis.Xmi
